@@ -43,7 +43,7 @@ type Ctx struct {
 type stepLimit struct{}
 
 func newCtx(prop, tier string, t *Tape, render bool) *Ctx {
-	c := &Ctx{Prop: prop, Tier: tier, T: t, Render: render, ev: fnvOff, C: map[string]int64{}, sets: map[string]*DSet{}, StepLimit: 5_000_000}
+	c := &Ctx{Prop: prop, Tier: tier, T: t, Render: render, ev: fnvOff, C: map[string]int64{}, sets: map[string]*DSet{}, StepLimit: 2_000_000}
 	if render {
 		c.R = map[string]interface{}{}
 	}
